@@ -154,6 +154,14 @@ func corpus(c *ctx, r *fw.Rand) pkt {
 		return pkt{rfc.EthIPv6, ip6(c, rfc.ProtoFrag6, f.Bytes())}
 	default: // plain ACK to the listener / to nowhere
 		t := rfc.TCP{SrcPort: uint16(1024 + r.Intn(60000)), DstPort: []uint16{c.ListenPort, 7, c.ConnL}[r.Intn(3)], Seq: r.U32(), Ack: r.U32(), Flags: uint8(r.Intn(64)), Window: uint16(r.U32()), Payload: r.Bytes(r.Intn(50))}
+		if r.Bool() {
+			// exactly the flag pattern that completes a SYN-cookie handshake, with an arbitrary
+			// acknowledgement number: whatever a forged "cookie" decodes to must be survivable
+			t.DstPort, t.Flags = c.ListenPort, rfc.ACK
+			if r.Bool() {
+				t.Payload = nil
+			}
+		}
 		return pkt{rfc.EthIPv4, ip4(c, rfc.ProtoTCP, t.Bytes4(c.P4, c.S4, true), uint16(r.U32()))}
 	}
 }
